@@ -368,6 +368,12 @@ class Inliner:
                 h = Helper(key, node, cls, encl, modname)
                 self.helpers[key] = h
                 if encl is not None:
+                    # a nested helper is inlined only if it is *the* definition of its name: bound once, unconditionally, at
+                    # the top level of the enclosing function (conditionally defined variants are chosen at run time)
+                    binds = sum(1 for n in ast.walk(encl) if (isinstance(n, (ast.FunctionDef, ast.AsyncFunctionDef)) and n is not encl and n.name == h.name) or
+                                (isinstance(n, ast.Name) and isinstance(n.ctx, ast.Store) and n.id == h.name))
+                    if binds != 1 or not any(node is s_ for s_ in encl.body):
+                        continue
                     self.by_encl.setdefault(id(encl), {})[h.name] = h
                 elif cls is not None:
                     self.by_class.setdefault((modname, cls.name), {})[h.name] = h
@@ -552,9 +558,65 @@ class Inliner:
                 return None
             return out_
 
+        def hoist_nested(st: ast.stmt) -> Optional[List[ast.stmt]]:
+            """a call of a new helper that is more than an expression, nested inside a simple statement: evaluate it into a
+            fresh local first (only when everything evaluated before it in that statement is a plain read)"""
+            if not isinstance(st, (ast.Assign, ast.Expr, ast.Return)) or st.value is None:
+                return None
+            top = st.value
+            found = None
+            # calls that are evaluated unconditionally, exactly once, when the statement runs
+            uncond: List[ast.AST] = []
+
+            def collect(n):
+                if isinstance(n, (ast.IfExp, ast.BoolOp, ast.Lambda, ast.GeneratorExp, ast.ListComp, ast.SetComp, ast.DictComp, ast.NamedExpr)):
+                    return
+                if isinstance(n, ast.Compare) and len(n.ops) > 1:
+                    return
+                uncond.append(n)
+                for c in ast.iter_child_nodes(n):
+                    collect(c)
+            collect(top)
+            for n in uncond:
+                if isinstance(n, ast.Call) and n is not top:
+                    r = ex.resolve(n, modname, cls, chain)
+                    if r is not None and r[0].value is None and not isinstance(r[0].fn, ast.Lambda) and r[0].fn is not fn and \
+                            r[0].bind(n, r[1]) is not None and not _has_loop_return(r[0].fn.body):
+                        found = n
+                        break
+            if found is None:
+                return None
+            # every other call / comprehension in the statement would make the evaluation order matter
+            for n in ast.walk(top):
+                if n is found or n is top:
+                    continue
+                if isinstance(n, (ast.Call, ast.GeneratorExp, ast.ListComp, ast.SetComp, ast.DictComp, ast.Await, ast.Yield, ast.NamedExpr)) and \
+                        not any(x is n for x in ast.walk(found)):
+                    return None
+            nm = _fresh("ret")
+
+            class R(ast.NodeTransformer):
+                def visit_Call(self, node):
+                    if node is found:
+                        return ast.Name(id=nm, ctx=ast.Load())
+                    return self.generic_visit(node)
+            pre = ast.Assign(targets=[ast.Name(id=nm, ctx=ast.Store())], value=found, lineno=st.lineno)
+            ast.copy_location(pre, st)
+            st.value = R().visit(st.value)
+            ast.fix_missing_locations(pre)
+            return [pre, st]
+
         def block(stmts: List[ast.stmt]) -> List[ast.stmt]:
             nonlocal changed
             out: List[ast.stmt] = []
+            stmts = list(stmts)
+            idx = 0
+            while idx < len(stmts):
+                hn = hoist_nested(stmts[idx])
+                if hn is not None:
+                    stmts[idx:idx + 1] = hn
+                    changed = True
+                idx += 1
             for st in stmts:
                 if isinstance(st, ast.If):
                     pi = predicate_inline(st)
@@ -703,6 +765,83 @@ def undo_private_renames(modules: Dict[str, "object"], known: Set[str]) -> List[
     return notes
 
 
+def _names_in(e: ast.AST) -> Set[str]:
+    out = set()
+    for n in ast.walk(e):
+        if isinstance(n, ast.Name):
+            out.add(n.id)
+        elif isinstance(n, ast.Attribute):
+            d = []
+            x = n
+            while isinstance(x, ast.Attribute):
+                d.append(x.attr)
+                x = x.value
+            if isinstance(x, ast.Name):
+                out.add(".".join([x.id] + list(reversed(d))))
+    return out
+
+
+def structure_statements(stmts: List[ast.stmt]) -> List[ast.stmt]:
+    """Statement-level canonical structure (semantics preserving):
+       flag = <boolean expression>;  x = A if flag else B      ->   the test is written where it is used, when nothing in
+                                                                    between can change its operands
+       x = A if c else B                                       ->   if c: x = A   else: x = B
+       return A if c else B                                    ->   if c: return A   else: return B"""
+    out: List[ast.stmt] = []
+    stmts = list(stmts)
+    i = 0
+    while i < len(stmts):
+        st = stmts[i]
+        # boolean local used once, in the test of the next statement's conditional expression / if
+        if isinstance(st, ast.Assign) and len(st.targets) == 1 and isinstance(st.targets[0], ast.Name) and \
+                isinstance(st.value, (ast.BoolOp, ast.Compare, ast.UnaryOp)) and i + 1 < len(stmts):
+            nm = st.targets[0].id
+            nxt = stmts[i + 1]
+            test = None
+            if isinstance(nxt, ast.If):
+                test = nxt.test
+            elif isinstance(nxt, (ast.Assign, ast.Return)) and isinstance(nxt.value, ast.IfExp):
+                test = nxt.value.test
+            uses_next = sum(1 for n in ast.walk(test) if isinstance(n, ast.Name) and n.id == nm) if test is not None else 0
+            uses_later = sum(1 for s_ in stmts[i + 1:] for n in ast.walk(s_) if isinstance(n, ast.Name) and n.id == nm)
+            if uses_next == 1 and uses_later == 1:
+                class R(ast.NodeTransformer):
+                    def visit_Name(self, node):
+                        return copy.deepcopy(st.value) if node.id == nm and isinstance(node.ctx, ast.Load) else node
+                if isinstance(nxt, ast.If):
+                    nxt.test = R().visit(nxt.test)
+                else:
+                    nxt.value.test = R().visit(nxt.value.test)
+                i += 1
+                continue
+        if isinstance(st, ast.Assign) and isinstance(st.value, ast.IfExp):
+            v = st.value
+            a = ast.Assign(targets=copy.deepcopy(st.targets), value=v.body, lineno=st.lineno)
+            b = ast.Assign(targets=copy.deepcopy(st.targets), value=v.orelse, lineno=st.lineno)
+            new = ast.If(test=v.test, body=structure_statements([a]), orelse=structure_statements([b]))
+            ast.copy_location(new, st)
+            ast.fix_missing_locations(new)
+            out.append(new)
+            i += 1
+            continue
+        if isinstance(st, ast.Return) and isinstance(st.value, ast.IfExp):
+            v = st.value
+            new = ast.If(test=v.test, body=structure_statements([ast.Return(value=v.body)]), orelse=structure_statements([ast.Return(value=v.orelse)]))
+            ast.copy_location(new, st)
+            ast.fix_missing_locations(new)
+            out.append(new)
+            i += 1
+            continue
+        for fld in ("body", "orelse", "finalbody"):
+            if isinstance(getattr(st, fld, None), list) and not isinstance(st, (ast.FunctionDef, ast.AsyncFunctionDef, ast.ClassDef)):
+                setattr(st, fld, structure_statements(getattr(st, fld)))
+        for h in getattr(st, "handlers", []) or []:
+            h.body = structure_statements(h.body)
+        out.append(st)
+        i += 1
+    return out
+
+
 def normalise(modules: Dict[str, "object"]) -> List[str]:
     known = load_known()
     if known is None:
@@ -710,4 +849,10 @@ def normalise(modules: Dict[str, "object"]) -> List[str]:
     notes = undo_private_renames(modules, known)
     inl = Inliner(modules, known, dict(json.load(open(KNOWN)).get("literal_loops", {})))
     inl.run()
+    if not os.environ.get("VERIF_NO_STRUCTURE"):
+        for modname, mod in modules.items():
+            for key, node, cls, encl in function_keys(mod.tree, modname):
+                if not isinstance(node, ast.Assign):
+                    node.body = structure_statements(node.body)
+            ast.fix_missing_locations(mod.tree)
     return notes + sorted(set(inl.report))
